@@ -198,6 +198,18 @@ pub fn compare_solution(
     inst: &InstRep,
     bit_exact: bool,
 ) -> Vec<(String, String)> {
+    compare_solution_opts(sol, exp, inst, bit_exact, true)
+}
+
+/// `check_used = false` skips the per-constraint used-id lists (they legitimately shrink after
+/// partial evaluation / substitution).
+pub fn compare_solution_opts(
+    sol: &v1::Solution,
+    exp: &RefSolution,
+    inst: &InstRep,
+    bit_exact: bool,
+    check_used: bool,
+) -> Vec<(String, String)> {
     let mut out = vec![];
     if !close_enough(sol.objective, &exp.objective, &exp.objective_magnitude, exp.objective_terms, bit_exact) {
         out.push((
@@ -255,7 +267,7 @@ pub fn compare_solution(
             ));
         }
         let used: BTreeSet<u64> = g.used_decision_variable_ids.iter().cloned().collect();
-        if used != e.used_ids || used.len() != g.used_decision_variable_ids.len() {
+        if check_used && (used != e.used_ids || used.len() != g.used_decision_variable_ids.len()) {
             out.push((
                 format!("{tag}-used-ids"),
                 format!("constraint {} used ids = {:?}, expected {:?}", e.id, g.used_decision_variable_ids, e.used_ids),
